@@ -294,7 +294,11 @@ Hopen(const char *path, int acc_mode, int16 ndds)
             /* Replace file_rec->file with new file pointer and
                close old one. */
             if (HI_CLOSE(file_rec->file) == FAIL) {
-                HI_CLOSE(f);
+                /* the old stream is gone whatever the close reported; the ids
+                   that are already out must keep a stream to work with */
+                file_rec->file      = f;
+                file_rec->f_cur_off = 0;
+                file_rec->last_op   = H4_OP_UNKNOWN;
                 HGOTO_ERROR(DFE_CANTCLOSE, FAIL);
             }
             file_rec->file      = f;
